@@ -11,7 +11,7 @@ static void verif_at_exit(int code);
 #define TRY(stmt) do { stmt; } while (0)
 #endif
 
-struct IN_t { unsigned char fail_stage; unsigned char fopen_fails; } IN;
+struct IN_t { unsigned char fail_stage; unsigned char fopen_fails; unsigned char write_fails; } IN;
 struct IN_t nondet_IN(void);
 
 enum { ST_NONE, ST_TOKENIZE_NULL, ST_TOKENIZE_EXIT, ST_PREPROCESS, ST_PARSE, ST_CODEGEN, ST_LAST = ST_CODEGEN };
@@ -53,7 +53,11 @@ static FILE *verif_fopen(const char *p, const char *mode) {
 }
 static FILE *verif_open_memstream(char **buf, size_t *len) { *buf = membuf; *len = 4; return &mem_file; }
 static size_t verif_fwrite(const void *p, size_t sz, size_t n, FILE *f) { if (f == &out_file) out_written++; return n; }
-static int verif_fclose(FILE *f) { if (f == &out_file) out_closed++; return 0; }
+// a write error (disk full, EIO) on the output stream: reported by ferror()/fflush()/fclose() (symbolic)
+static bool write_error_reported;
+static int verif_fclose(FILE *f) { if (f == &out_file) { out_closed++; if (IN.write_fails) { write_error_reported = true; errno = ENOSPC; return EOF; } } return 0; }
+static int verif_ferror(FILE *f) { if (IN.write_fails && (f == &out_file || f == stdout)) { write_error_reported = true; return 1; } return 0; }
+static int verif_fflush(FILE *f) { if (IN.write_fails && (f == &out_file || f == stdout)) { write_error_reported = true; errno = ENOSPC; return EOF; } return 0; }
 static int verif_unlink(const char *p) { return 0; }
 static int verif_stat(const char *p, struct stat *st) { return -1; }
 static char *verif_dirname(char *p) { return "."; }
@@ -65,6 +69,9 @@ static char *verif_format(char *fmt, ...) { return "formatted"; }
 #define open_memstream verif_open_memstream
 #define fwrite verif_fwrite
 #define fclose verif_fclose
+#undef ferror
+#define ferror verif_ferror
+#define fflush verif_fflush
 #define unlink verif_unlink
 #define stat(p, s) verif_stat(p, s)
 #undef dirname
@@ -120,6 +127,8 @@ static void verif_at_exit(int code) {
     VASSERT(out_opened == 0, "a failing translation unit never creates/truncates its output");
   } else if (IN.fopen_fails && g_output) {
     VASSERT(code != 0, "unwritable output makes cc1 exit non-zero");
+  } else if (IN.write_fails) {
+    VASSERT(code != 0, "a write error on the output (disk full) makes cc1 exit non-zero");
   } else {
     VASSERT(code == 0, "successful unit: exit 0");
     if (g_output) VASSERT(out_opened == 1, "successful unit: output opened exactly once");
@@ -133,7 +142,7 @@ static void verif_at_exit(int code) {
 static void run(char **argv, int argc, const char *output, bool is_E) {
   HAVOC_IN();
   __CPROVER_assume(IN.fail_stage <= ST_LAST);
-  __CPROVER_assume(IN.fopen_fails <= 1);
+  __CPROVER_assume(IN.fopen_fails <= 1 && IN.write_fails <= 1);
 #ifdef WIT_FAIL
   __CPROVER_assume(IN.fail_stage != ST_NONE);
 #endif
